@@ -222,6 +222,7 @@ func (c *sourceUserCache) recordAuthenticated(key [16]byte, userID uint32) {
 		return
 	}
 	table := c.loadTable()
+	verifYield("record.table")
 	if table == nil {
 		return
 	}
